@@ -3,6 +3,7 @@
 -/
 import AnyVecModel.Proofs.Exec
 import AnyVecModel.Proofs.KernelRawParts
+import AnyVecModel.Proofs.KernelMemAccess
 import AnyVecModel.Props.RefineMulti
 namespace AnyVec
 namespace C17
@@ -76,6 +77,19 @@ theorem raw_parts_tables_are_the_source :
     Gen.Kernel.anyvec_into_raw_parts_fields.length = 12 ∧ Gen.Kernel.raw_parts_clone_fields.length = 8 ∧
     Gen.Kernel.heap_build_fields = [("mem", "dangling(&element_layout)"), ("size", "0"), ("element_layout", "element_layout")] :=
   ⟨by rw [KernelTie.raw_parts_tie.1]; rfl, by rw [KernelTie.raw_parts_tie.2.2.1]; rfl, KernelTie.raw_parts_tie.2.2.2.2.1⟩
+
+/-- **source tie**: the capacity-less backend decomposes into `((), layout, 0)` and is rebuilt from the layout alone, and
+the heap storage reports the `size` field that `from_raw_parts` stored (`/repo/src/mem/{empty,heap}.rs`, read on this
+run) - so the capacity that comes back from a round trip is the capacity that went in. -/
+theorem backend_raw_parts_are_the_source :
+    Gen.Kernel.empty_mem_accessors.lookup "into_raw_parts" = some "( ( ) , self . element_layout , 0 )" ∧
+    Gen.Kernel.empty_mem_accessors.lookup "from_raw_parts" = some "debug_assert! ( size == 0 ) ; Self { element_layout }" ∧
+    Gen.Kernel.empty_mem_accessors.lookup "build" = some "EmptyMem { element_layout }" ∧
+    Gen.Kernel.heap_mem_accessors.lookup "size" = some "self . size" ∧
+    Gen.Kernel.heap_mem_accessors.lookup "element_layout" = some "self . element_layout" := by
+  obtain ⟨h1, _, _, h4, _⟩ := KernelTie.mem_accessors_tie
+  rw [h1, h4]
+  exact ⟨rfl, rfl, rfl, rfl, rfl⟩
 
 /-! ### against the abstract state of all vectors (Props/RefineMulti.lean) -/
 
